@@ -2,11 +2,47 @@
 //! `mrun <hook> <int args...>` calls the real function (through temporal_rs::verif_hooks or the
 //! public API) and prints its result as whitespace-separated integers (`PANIC <msg>` on panic).
 use std::num::NonZeroU128;
-use temporal_rs::options::{ArithmeticOverflow, RoundingMode};
+use temporal_rs::iso::{IsoDate, IsoTime};
+use temporal_rs::options::{ArithmeticOverflow, RoundingIncrement, RoundingMode, RoundingOptions, Unit};
+use temporal_rs::Instant;
 use temporal_rs::verif_hooks as h;
 
 fn mode(m: i128) -> RoundingMode {
     vharness::common::mode_of(m as u8)
+}
+
+fn unit(u: i128) -> Unit {
+    vharness::common::unit_of(u as u8)
+}
+
+fn time6(a: &[i128]) -> IsoTime {
+    let mut t = IsoTime::default();
+    t.hour = a[0] as u8;
+    t.minute = a[1] as u8;
+    t.second = a[2] as u8;
+    t.millisecond = a[3] as u16;
+    t.microsecond = a[4] as u16;
+    t.nanosecond = a[5] as u16;
+    t
+}
+
+fn date3(a: &[i128]) -> IsoDate {
+    let mut d = IsoDate::default();
+    d.year = a[0] as i32;
+    d.month = a[1] as u8;
+    d.day = a[2] as u8;
+    d
+}
+
+fn fmt_time(t: &IsoTime) -> String {
+    format!(
+        "{} {} {} {} {} {}",
+        t.hour, t.minute, t.second, t.millisecond, t.microsecond, t.nanosecond
+    )
+}
+
+fn overflow(v: i128) -> ArithmeticOverflow {
+    if v == 0 { ArithmeticOverflow::Constrain } else { ArithmeticOverflow::Reject }
 }
 
 fn run(name: &str, a: &[i128]) -> String {
@@ -51,6 +87,80 @@ fn run(name: &str, a: &[i128]) -> String {
             Ok(v) => format!("0 {v}"),
             Err(e) => format!("1 {}", e.kind() as u8),
         },
+        "iso_time_round" => {
+            // h m s ms us ns unit inc mode
+            let Ok(inc) = RoundingIncrement::try_new(a[7] as u32) else { return "1 2".into() };
+            match h::iso_time_round(time6(a), unit(a[6]), inc, mode(a[8])) {
+                Ok((d, t)) => format!("0 {} {}", d, fmt_time(&t)),
+                Err(e) => format!("1 {}", e.kind() as u8),
+            }
+        }
+        "iso_time_add_nanoseconds" => {
+            let (d, t) = h::iso_time_add_nanoseconds(time6(a), a[6]);
+            format!("{} {}", d, fmt_time(&t))
+        }
+        "norm_round" => {
+            let Ok(inc) = RoundingIncrement::try_new(a[2] as u32) else { return "1 2".into() };
+            match h::norm_round(a[0], unit(a[1]), inc, mode(a[3])) {
+                Ok(v) => format!("0 {v}"),
+                Err(e) => format!("1 {}", e.kind() as u8),
+            }
+        }
+        "instant_round" => {
+            // ns unit inc mode  (public API)
+            let Ok(i) = Instant::try_new(a[0]) else { return "1 2".into() };
+            let Ok(inc) = RoundingIncrement::try_new(a[2] as u32) else { return "1 2".into() };
+            let mut o = RoundingOptions::default();
+            o.largest_unit = None;
+            o.smallest_unit = Some(unit(a[1]));
+            o.increment = Some(inc);
+            o.rounding_mode = Some(mode(a[3]));
+            match i.round(o) {
+                Ok(v) => format!("0 {}", v.as_i128()),
+                Err(e) => format!("1 {}", e.kind() as u8),
+            }
+        }
+        "iso_date_time_from_epoch_nanos" => match h::iso_date_time_from_epoch_nanos(a[0], a[1] as i64) {
+            Ok(dt) => format!("0 {} {} {} {}", dt.date.year, dt.date.month, dt.date.day, fmt_time(&dt.time)),
+            Err(e) => format!("1 {}", e.kind() as u8),
+        },
+        "iso_date_time_balance" => {
+            let dt = h::iso_date_time_balance(
+                a[0] as i32, a[1] as i32, a[2] as i32, a[3] as i64, a[4] as i64, a[5] as i64,
+                a[6] as i64, a[7] as i64, a[8] as i64,
+            );
+            format!("{} {} {} {}", dt.date.year, dt.date.month, dt.date.day, fmt_time(&dt.time))
+        }
+        "iso_date_add_date_duration" => {
+            // y m d  years months weeks days overflow
+            match h::iso_date_add_date_duration(
+                date3(a), a[3] as f64, a[4] as f64, a[5] as f64, a[6] as f64, overflow(a[7]),
+            ) {
+                Ok(d) => format!("0 {} {} {}", d.year, d.month, d.day),
+                Err(e) => format!("1 {}", e.kind() as u8),
+            }
+        }
+        "iso_date_diff" => match h::iso_date_diff(date3(a), date3(&a[3..]), unit(a[6])) {
+            Ok((y, m, w, d)) => format!("0 {} {} {} {}", y as i64, m as i64, w as i64, d as i64),
+            Err(e) => format!("1 {}", e.kind() as u8),
+        },
+        "iso_date_time_within_limits" => {
+            let dt = h::iso_date_time_new_unchecked(date3(a), time6(&a[3..]));
+            format!("{}", h::iso_date_time_within_limits(&dt) as u8)
+        }
+        "negate_mode" => format!("{}", vharness::common::mode_idx(mode(a[0]).negate())),
+        "unsigned_mode" => {
+            use temporal_rs::options::UnsignedRoundingMode as U;
+            let u = mode(a[0]).get_unsigned_round_mode(a[1] != 0);
+            let i = match u {
+                U::Infinity => 0,
+                U::Zero => 1,
+                U::HalfInfinity => 2,
+                U::HalfZero => 3,
+                U::HalfEven => 4,
+            };
+            format!("{i}")
+        }
         _ => "UNKNOWN_HOOK".to_string(),
     }
 }
